@@ -65,6 +65,7 @@ MUTATORS = {"append", "extend", "update", "pop", "remove", "add", "insert", "sor
             "setParseAction", "setResultsName", "__setitem__", "write"}
 IMPURE_FUNCS = {"next", "print", "setattr", "exec", "eval", "input", "open", "delattr", "\x00import", "\x00importfrom"}
 CONSUMERS = {"tuple", "list", "set", "frozenset", "sum", "any", "all", "sorted", "min", "max", "dict", "OrderedDict", "reduce"}
+SIZED_RESULT_METHODS = {"split", "rsplit", "splitlines", "findall", "keys", "values", "items", "strip", "lstrip", "rstrip", "partition", "rpartition"}   # results with a length: true iff not empty
 NUMERIC_FUNCS = {"exp", "log", "log10", "log2", "sqrt", "float", "int", "sum", "len", "abs", "min", "max", "sin", "cos", "tanh", "atanh", "arctanh", "floor", "round", "Fraction"}
 MAX_EFFECTS = 6000
 MAX_EXPR_NODES = 10000
@@ -637,7 +638,8 @@ class Normaliser:
         if isinstance(n, ast.BoolOp):
             return _bool_form(type(n.op).__name__, [self.test(v, benv) for v in n.values])
         if isinstance(n, (ast.ListComp, ast.List, ast.Dict, ast.DictComp, ast.Set, ast.SetComp, ast.Tuple)) or \
-                (isinstance(n, ast.Call) and isinstance(n.func, ast.Name) and n.func.id in ("list", "dict", "tuple", "set", "sorted", "frozenset") and n.func.id not in benv):
+                (isinstance(n, ast.Call) and isinstance(n.func, ast.Name) and n.func.id in ("list", "dict", "tuple", "set", "sorted", "frozenset") and n.func.id not in benv) or \
+                (isinstance(n, ast.Call) and isinstance(n.func, ast.Attribute) and n.func.attr in SIZED_RESULT_METHODS):
             # the truth value of a list / dict / tuple / set is "not empty"
             pos, t = self.test(ast.Compare(left=ast.Call(func=ast.Name(id="len", ctx=ast.Load()), args=[n], keywords=[]), ops=[ast.Eq()], comparators=[ast.Constant(value=0)]), benv)
             return (not pos), t
@@ -1451,6 +1453,32 @@ class Normaliser:
                 inner = None if la is None else la | self.names_read((s.body, s.orelse)) | {x.id for x in ast.walk(s.test if isinstance(s, ast.While) else s.iter) if isinstance(x, ast.Name)}
                 eff.extend(self.with_live(inner, lambda: self.do_loop(s, env)))
                 continue
+            if isinstance(s, ast.Try) and s.handlers and not s.orelse and not s.finalbody and s.body and isinstance(s.body[-1], ast.Return) \
+                    and s.body[-1].value is not None \
+                    and not any(isinstance(x, (ast.Return, ast.Break, ast.Continue)) for st_ in s.body[:-1] for x in ast.walk(st_)):
+                # `try: ...; return E` is `try: ...; v = E` / else: `return v` -- returning a value that is already computed cannot raise
+                val_ = s.body[-1].value
+                if isinstance(val_, (ast.Name, ast.Constant)):
+                    body2, ret2 = list(s.body[:-1]), ast.Return(value=val_)
+                else:
+                    self._tryret = getattr(self, "_tryret", 0) + 1
+                    tmp = "\x01tr%d" % self._tryret
+                    body2 = list(s.body[:-1]) + [ast.Assign(targets=[ast.Name(id=tmp, ctx=ast.Store())], value=val_)]
+                    ret2 = ast.Return(value=ast.Name(id=tmp, ctx=ast.Load()))
+                if body2:
+                    s2 = ast.Try(body=body2, handlers=s.handlers, orelse=[ret2], finalbody=[])
+                    s2._fn_last = bool(self.fn.body) and (s is self.fn.body[-1] or getattr(s, "_fn_last", False))
+                else:
+                    s2 = ret2      # nothing in the body that could raise
+                ast.fix_missing_locations(ast.copy_location(s2, s))
+                stmts = stmts[:i - 1] + [s2] + rest
+                i -= 1
+                continue
+            if isinstance(s, ast.Try) and s.handlers and not s.finalbody and not rest and not cont and self.fn.body and (s is self.fn.body[-1] or getattr(s, "_fn_last", False)) \
+                    and not all(always_leaves(h.body) for h in s.handlers) and s.orelse:
+                # the last statement of the function: a handler that falls off its end returns None
+                hs2 = [h if always_leaves(h.body) else ast.ExceptHandler(type=h.type, name=h.name, body=list(h.body) + [ast.Return(value=ast.Constant(value=None))]) for h in s.handlers]
+                s = ast.fix_missing_locations(ast.copy_location(ast.Try(body=s.body, handlers=hs2, orelse=s.orelse, finalbody=[]), s))
             if isinstance(s, ast.Try) and s.orelse and s.handlers and all(always_leaves(h.body) for h in s.handlers) and not s.finalbody:
                 s2 = ast.Try(body=s.body, handlers=s.handlers, orelse=[], finalbody=[])
                 stmts = stmts[:i - 1] + [s2] + list(s.orelse) + rest
@@ -1472,6 +1500,16 @@ class Normaliser:
                     names_here = {x.id for st_ in part for x in ast.walk(st_) if isinstance(x, ast.Name)}
                     outside = {x.id for x in ast.walk(self.fn) if isinstance(x, ast.Name) and id(x) not in inside}
                     local_to_part |= (names_here - outside)
+                # (statements made by the normaliser itself are not part of self.fn: a name in two parts of this try is not local to one)
+                seen_parts = {}
+                for pi_, part in enumerate(parts):
+                    for st_ in part:
+                        for x in ast.walk(st_):
+                            if isinstance(x, ast.Name):
+                                seen_parts.setdefault(x.id, set()).add(pi_)
+                local_to_part = {nm_ for nm_ in local_to_part if len(seen_parts.get(nm_, ())) <= 1}
+                after_names = self.names_read((rest,) + tuple(cont))
+                local_to_part -= after_names
                 self.before_nested(s.body + s.orelse + s.finalbody + [x for h in s.handlers for x in h.body], env, eff)
                 for nm in self.stores_in(s.body + s.orelse + s.finalbody + [x for h in s.handlers for x in h.body]):
                     if nm in local_to_part and nm not in self.captured and nm not in self.mutated and nm not in env and nm not in self.params:
